@@ -28,7 +28,7 @@ AllKeys  == KvKeys \cup FlagKeys \cup ListKeys
 \* the value written for a key (one representative value per key; value atoms are
 \* expanded and written in several literal styles by the driver)
 ValueOf(k) ==
-  CASE k = "query_path"  -> "q/My Query.graphql"
+  CASE k = "query_path"  -> "q/My Query\\v2.graphql"    \* a blank and a backslash: nothing may rewrite the written value
     [] k = "schema_path" -> "../schemas/schema.graphql"
     [] k = "response_derives" -> "Debug, PartialEq"
     [] k = "variables_derives" -> "Debug,Clone"
